@@ -3,6 +3,11 @@ from . import grounded, accept, cli, provenance, progress
 
 
 def run(ctx):
+    from . import lazyvars as _lazyvars
+    _lazyvars.rule_lazy_variable_counter(ctx)
+    from . import layout as _layout
+    _layout.rule_variable_layout(ctx)
+    _layout.rule_clause_templates(ctx)  # the clauses each encoder mode issues are the reference encoding's
     accept.rule_stable_unsat(ctx, 'skeptical')
     from . import splits
     splits.rule_split_contents(ctx)
